@@ -384,7 +384,8 @@ func (w *TLSWorld) Run(maxSteps int) string {
 func runTLSWorld(k *Kernel, p *Plan, rec *RunRecord) {
 	w := NewTLSWorld(k, p)
 	reason := w.Run(maxStepsFor(p))
-	if n, first := libGoroutines(); n > 0 && reason == "stopped" {
+	if n, first := libGoroutines(); n > 0 && reason == "stopped" && len(k.StallIntervals()) == 0 {
+		// (under the dense stalls of C18 a goroutine may still sit in a ten-minute park)
 		k.Violate(&Violation{Property: "C15", Class: "leak", Key: kv("kind", "goroutine", "how", "tls"), Detail: first})
 	}
 	fillRecord(rec, k, reason)
